@@ -1,106 +1,280 @@
+// C11: weighted address selection is bounded, sound and proportional.
+//
+// The random source is OWNED by the harness: db.SetRandForVerif installs
+// rand.New(scripted), a rand.Source64 that answers every draw from a script
+// (source.go). A draw is an environment answer, enumerated like any other input.
+//
+// Part 1 (venum, e2e.go): every candidate set over {weight 0,1,2,2^32-1} x
+// {untagged, aa} up to the size bound, every maxAnswer, EVERY sequence of key
+// draws over {0,1,2^31,2^32-2,2^32-1} (one draw per stored row, as wrs.go takes
+// them), shuffle draws defaulted and then varied one at a time; compiled with
+// the real compilers and asked through the real handler (CDB; RocksDB v2 for
+// small sets) as A, AAAA, MX (additional) and referral (glue) queries.
+// Part 2 (prop.go): win probabilities of the real Wrs.Add/ARecord bracketed
+// rigorously by evaluating the two extreme corners of every cell of an N^n grid
+// over the draw space.
+// Part 3 (vsched, shared.go): all interleavings within the preemption bound of
+// threads drawing from the package's locked source.
 package main
 
 import (
+	"fmt"
 	"os"
 	"runtime"
-	"runtime/pprof"
-	"fmt"
-	"math"
-	"time"
-
-	"github.com/facebookincubator/dns/dnsrocks/db"
-	"github.com/miekg/dns"
+	"sort"
 
 	"verifharness/dnsfix"
 	"verifharness/vlib"
 )
 
-const skeleton = "Zexample.com,a.ns.example.com,hostmaster.example.com,1,7200,1800,604800,120,300,,\n" +
-	"&example.com,,a.ns.example.com,3600,,\n" +
-	"Mexample.com,m1\nM*.example.com,m1\n%aa,10.0.0.0/8,m1\n%bb,192.168.0.0/16,m1\n"
+type unit struct {
+	kind string // "e2e" | "prop" | "cross" | "sched" | "teeth"
+	cost int64
+	plan e2ePlan
+	vec  []uint32
+	cand int
+	sc   sharedScen
+	ord  int
+}
+
+const propLogN = 6  // N = 64 cells per draw
+const crossLogN = 3 // N = 8 for the serve-path cross-check
+
+func hasTag(set []sym) bool {
+	for _, s := range set {
+		if s.Tag != "" {
+			return true
+		}
+	}
+	return false
+}
+
+func seq(a, b int) []int {
+	var o []int
+	for i := a; i <= b; i++ {
+		o = append(o, i)
+	}
+	return o
+}
+
+// planUnits lists the work of a tier. Everything listed is executed; nothing is sampled.
+func planUnits(thorough bool) (units []unit, bounds map[string]interface{}) {
+	bounds = map[string]interface{}{}
+	addPlan := func(p e2ePlan) {
+		n := len(p.set)
+		per := int64(0)
+		for range p.clients {
+			per += int64(len(p.ms)*len(p.fams)) * pow5(n)
+			if p.addl {
+				per += 4 * pow5(n)
+				if n <= 2 {
+					per += 2 * pow5(2*n)
+				}
+			}
+		}
+		if p.backend != dnsfix.CDB {
+			per += 4000 // compile + open of a RocksDB directory, in query units
+		}
+		p.cost = per
+		units = append(units, unit{kind: "e2e", cost: per * 20, plan: p})
+	}
+	both := []string{"aa", ""}
+	for n := 1; n <= 5; n++ {
+		for _, set := range multisets(alphabet, n) {
+			switch {
+			case n <= 3 || (thorough && n == 4):
+				addPlan(e2ePlan{set: set, backend: dnsfix.CDB, ms: seq(1, 8), fams: []int{4, 6}, clients: both, addl: true, shuffle: true})
+			case n == 4:
+				addPlan(e2ePlan{set: set, backend: dnsfix.CDB, ms: []int{1, 2, 3, 4, 5, 8}, fams: []int{4}, clients: []string{"aa"}, shuffle: true})
+			case thorough:
+				fams := []int{4}
+				if !hasTag(set) {
+					fams = []int{4, 6}
+				}
+				addPlan(e2ePlan{set: set, backend: dnsfix.CDB, ms: seq(1, 8), fams: fams, clients: []string{"aa"}, shuffle: true})
+			case !hasTag(set):
+				addPlan(e2ePlan{set: set, backend: dnsfix.CDB, ms: []int{1, 3, 5, 8}, fams: []int{4}, clients: []string{"aa"}})
+			}
+			if n <= 2 || (thorough && n == 3) {
+				addPlan(e2ePlan{set: set, backend: dnsfix.RDBv2, ms: seq(1, 8), fams: []int{4, 6}, clients: both, addl: true, shuffle: true})
+			}
+			if thorough && n <= 2 {
+				addPlan(e2ePlan{set: set, backend: dnsfix.RDBv1, ms: seq(1, 8), fams: []int{4, 6}, clients: both, addl: true, shuffle: true})
+			}
+		}
+	}
+	if thorough {
+		bounds["e2e_bounds"] = "CDB: sets of size 1-4: maxAnswer 1..8, A and AAAA, clients aa and unlocated, additional-section slots, shuffle variation; size 5 (all 792 sets): maxAnswer 1..8, A (AAAA for untagged sets), client aa, shuffle variation. RocksDB v2: sizes 1-3, RocksDB v1: sizes 1-2 (full configuration)"
+	} else {
+		bounds["e2e_bounds"] = "CDB: sets of size 1-3: maxAnswer 1..8, A and AAAA, clients aa and unlocated, additional-section slots, shuffle variation; size 4 (all 330 sets): maxAnswer {1,2,3,4,5,8}, A, client aa, shuffle variation; size 5: the 56 untagged sets, maxAnswer {1,3,5,8}, A. RocksDB v2: sizes 1-2 (full configuration)"
+	}
+	// part 2
+	for n := 2; n <= 3; n++ {
+		vecs := propVectors(n, thorough || n == 2)
+		for _, v := range vecs {
+			for i := range v {
+				c := int64(1)
+				for j := 0; j < n; j++ {
+					c *= 1 << propLogN
+				}
+				units = append(units, unit{kind: "prop", cost: 2 * c / 2, vec: v, cand: i})
+			}
+		}
+		for _, v := range propVectors(n, false) {
+			c := int64(1)
+			for j := 0; j < n; j++ {
+				c *= 1 << crossLogN
+			}
+			units = append(units, unit{kind: "cross", cost: 2 * int64(n) * c * 25, vec: v})
+		}
+	}
+	units = append(units, unit{kind: "teeth", cost: 16 * 4 * 2 * 2 * 4096 / 10})
+	bounds["prop_cells_per_draw"] = 1 << propLogN
+	bounds["prop_weight_alphabet"] = propWeights
+	if thorough {
+		bounds["prop_vectors"] = "all 16 ordered pairs and all 64 ordered triples"
+	} else {
+		bounds["prop_vectors"] = "all 16 ordered pairs; the 20 non-decreasing triples"
+	}
+	// part 3
+	scs := []sharedScen{{"probe", 2, 2, false}, {"probe", 3, 2, false}, {"probe", 3, 2, true}, {"runtime", 2, 2, false}, {"runtime", 3, 2, false}}
+	if thorough {
+		scs = append(scs, sharedScen{"probe", 2, 3, false}, sharedScen{"probe", 3, 3, false})
+	}
+	for _, sc := range scs {
+		units = append(units, unit{kind: "sched", cost: 2000000, sc: sc})
+	}
+	for i := range units {
+		units[i].ord = i
+	}
+	return
+}
+
+// assign distributes units over shards: largest first onto the least loaded shard (deterministic).
+func assign(units []unit, n int) [][]unit {
+	idx := make([]int, len(units))
+	for i := range idx {
+		idx[i] = i
+	}
+	sort.SliceStable(idx, func(a, b int) bool { return units[idx[a]].cost > units[idx[b]].cost })
+	load := make([]int64, n)
+	out := make([][]unit, n)
+	for _, i := range idx {
+		best := 0
+		for s := 1; s < n; s++ {
+			if load[s] < load[best] {
+				best = s
+			}
+		}
+		load[best] += units[i].cost
+		out[best] = append(out[best], units[i])
+	}
+	for s := range out {
+		sort.SliceStable(out[s], func(a, b int) bool { return out[s][a].ord < out[s][b].ord })
+	}
+	return out
+}
+
+const schedBound = 3
 
 func main() {
 	runtime.GOMAXPROCS(1)
-	pf, _ := os.Create("/tmp/c11.prof")
-	pprof.StartCPUProfile(pf)
-	defer pprof.StopCPUProfile()
-	dir, clean := vlib.Scratch("c11")
-	defer clean()
-	dnsfix.Quiet(dir)
-	installSource()
-	for _, d := range []uint32{0, 1, 1 << 31, 1<<32 - 2, 1<<32 - 1} {
-		u := float64(d) * float64(1.0/math.MaxUint32)
-		for _, w := range []uint32{0, 1, 2, 1<<32 - 1} {
-			fmt.Printf("d=%d u=%v w=%d key=%v\n", d, u, w, math.Pow(u, 1.0/float64(w)))
-		}
+	r := vlib.Start("C11")
+	if p := replayArg(); p != "" {
+		dir, clean := vlib.Scratch("c11")
+		scratchDir = dir
+		dnsfix.Quiet(dir)
+		installSource()
+		code := doReplay(p)
+		closeWorlds()
+		clean()
+		os.Exit(code)
 	}
-	text := skeleton +
-		"+www.example.com,192.0.2.10,300,,aa,0\n" +
-		"+www.example.com,192.0.2.11,300,,,1\n" +
-		"+www.example.com,192.0.2.13,300,,,2\n" +
-		"+www.example.com,192.0.2.12,300,,,1\n" +
-		"+www.example.com,192.0.2.14,300,,aa,4294967295\n" +
-		"+www.example.com,2001:db8::10,300,,aa,1\n" +
-		"+www.example.com,192.0.2.201,300,,bb,1\n" +
-		"@m.example.com,,mx.example.com,10,300,,\n" +
-		"+mx.example.com,192.0.2.10,300,,aa,0\n" +
-		"+mx.example.com,2001:db8::10,300,,aa,1\n" +
-		"&d.example.com,,ns.d.example.com,3600,,\n" +
-		"+ns.d.example.com,192.0.2.10,300,,aa,1\n" +
-		"+ns.d.example.com,2001:db8::10,300,,,1\n"
-	for _, b := range []dnsfix.Backend{dnsfix.CDB} {
-		p, err := dnsfix.Compile(dir, b, []byte(text))
-		if err != nil {
-			panic(err)
-		}
-		h, err := dnsfix.OpenHandler(b, p, dnsfix.HandlerOpts{})
-		if err != nil {
-			panic(err)
-		}
-		for _, cl := range []string{"10.1.1.1", "8.8.8.8"} {
-			for _, q := range []struct {
-				n string
-				t uint16
-			}{{"www.example.com", dns.TypeA}, {"www.example.com", dns.TypeAAAA}, {"m.example.com", dns.TypeMX}, {"x.d.example.com", dns.TypeA}} {
-				src.load([]uint32{1 << 31, 1 << 31, 1 << 31, 1 << 31, 1 << 31, 5, 6, 7})
-				res := h.Serve(dnsfix.Query(q.n, q.t), cl, false, 3)
-				_ = fmt.Sprintf("%s %s %s/%d: taken=%d\n%s\n", b, cl, q.n, q.t, src.taken(), dnsfix.CanonResult(res))
+	units, bounds := planUnits(r.Thorough())
+	idx, n, isShard := r.Shard()
+	if isShard {
+		dir, clean := vlib.Scratch("c11")
+		scratchDir = dir
+		dnsfix.Quiet(dir)
+		installSource()
+		var es e2eStats
+		var ps propStats
+		var ss sharedStats
+		for _, u := range assign(units, n)[idx] {
+			switch u.kind {
+			case "e2e":
+				runPlan(r, u.plan, &es)
+			case "prop":
+				propUnit(r, u.vec, u.cand, propLogN, &ps)
+				ps.vectors++
+			case "cross":
+				propCross(r, u.vec, crossLogN, &ps)
+			case "teeth":
+				propTeeth(r, propLogN)
+			case "sched":
+				runShared(r, u.sc, schedBound, &ss)
 			}
 		}
-		// row order through the reader
-		d, err := db.Open(p, b.Driver())
-		if err != nil {
-			panic(err)
+		closeWorlds()
+		clean()
+		r.Add("e2e_evaluations", es.evals)
+		r.Add("e2e_shuffle_evaluations", es.shuffleEvals)
+		r.Add("e2e_nontrivial", es.nontrivial)
+		r.Add("e2e_failing_evaluations", es.failing)
+		r.Add("e2e_compiled_databases", es.worlds)
+		r.Add("e2e_configurations", es.configs)
+		r.Add("e2e_misaligned_slot_client_configurations", es.misaligned)
+		r.Add("e2e_rocksdb_evaluations_with_extra_selection_round", deviations)
+		for k := 1; k <= 5; k++ {
+			r.Add(fmt.Sprintf("e2e_evaluations_size%d", k), es.bySize[k])
 		}
-		rd, _ := db.NewReader(d)
-		name := make([]byte, 255)
-		off, _ := dns.PackDomainName("www.example.com.", name, 0, nil, false)
-		rd.ForEachResourceRecord(name[:off], &db.Location{LocID: [2]byte{'a', 'a'}}, func(row []byte) error {
-			rr, err := db.ExtractRRFromRow(row, false)
-			fmt.Printf("  row type=%d w=%d addr=%x err=%v\n", rr.Qtype, rr.Weight, row[rr.Offset:], err)
-			return nil
-		})
-		rd.Close()
-		d.Destroy()
-		t0 := time.Now()
-		n := 20000
-		for i := 0; i < n; i++ {
-			src.load([]uint32{1 << 31, 1, 1 << 31, 1 << 31, 1 << 31, 5, 6, 7})
-			h.Serve(dnsfix.Query("www.example.com", dns.TypeA), "10.1.1.1", false, 3)
+		r.Add("prop_corner_evaluations", ps.evals)
+		r.Add("prop_cells", ps.cells)
+		r.Add("prop_vector_candidate_pairs", ps.vectors)
+		r.Add("prop_serve_path_cross_evaluations", ps.crossEvals)
+		r.Add("max_prop_bracket_width_n2_ppm", int64(ps.maxWidth[2]*1e6))
+		r.Add("max_prop_bracket_width_n3_ppm", int64(ps.maxWidth[3]*1e6))
+		r.Add("sched_executions", ss.execs)
+		r.Add("sched_steps", ss.steps)
+		r.Add("sched_distinct_states", ss.states)
+		r.Add("sched_scenarios", ss.scenarios)
+		r.Add("sched_distinct_outcomes", ss.outcomes)
+		r.Add("source_calls_Int63", src.nInt63)
+		r.Add("source_calls_Uint64", src.nUint64)
+		r.Add("source_calls_Seed", src.nSeed)
+		if ss.capped {
+			r.Exhaustive = false
 		}
-		fmt.Printf("%s per query %v\n", b, time.Since(t0)/time.Duration(n))
-		h.Close()
+		r.Finish()
 	}
-	t0 := time.Now()
-	n := 1000000
-	ip := []byte{192, 0, 2, 1}
-	for i := 0; i < n; i++ {
-		src.load([]uint32{1 << 31, 1, 1 << 30})
-		w := db.Wrs{MaxAnswers: 1}
-		w.Add(db.ResourceRecord{Weight: 1, Qtype: dns.TypeA, TTL: 1}, ip)
-		w.Add(db.ResourceRecord{Weight: 2, Qtype: dns.TypeA, TTL: 1}, ip)
-		w.Add(db.ResourceRecord{Weight: 3, Qtype: dns.TypeA, TTL: 1}, ip)
-		w.ARecord("x.", 1)
+	r.ForkShards(vlib.Workers())
+	for k, v := range bounds {
+		r.Set(k, v)
 	}
-	fmt.Printf("direct per eval %v\n", time.Since(t0)/time.Duration(n))
+	evals := r.Int("e2e_evaluations") + r.Int("e2e_shuffle_evaluations") + r.Int("prop_corner_evaluations") + r.Int("prop_serve_path_cross_evaluations") + r.Int("sched_executions")
+	r.Set("evaluations", evals)
+	r.Set("traces_validated_against_impl", evals)
+	r.Set("states", r.Int("e2e_configurations")+r.Int("prop_cells")+r.Int("sched_distinct_states"))
+	r.Set("transitions", evals+r.Int("sched_steps"))
+	r.Set("distinct_nontrivial", r.Int("e2e_nontrivial")+r.Int("prop_cells")+r.Int("sched_distinct_outcomes"))
+	r.Set("sched_preemption_bound", schedBound)
+	r.Set("candidate_alphabet", fmt.Sprint(alphabet))
+	r.Set("draw_alphabet", drawAlphabet)
+	r.Set("rule", "part 1: every multiset of candidates over {weight 0,1,2,2^32-1}x{untagged,aa} up to the size bound (see e2e_bounds), declared in a data file (plus records tagged bb that no client may see), compiled by the real compiler, served by the real handler with the scripted source: for every maxAnswer and EVERY sequence of per-row key draws over the 5-value draw alphabet (shuffle draws defaulted, then each varied over the alphabet with keys fixed), A and AAAA answers, MX-target and delegation-glue additional sections are judged: count = min(max, positive-weight visible candidates) per family, addresses subset of the declared visible ones, no repetition, no weight-0 address in a NOERROR response; failing cases are minimised over all candidate sub-sets and reported once. states = (set, client, slot, maxAnswer) configurations + grid cells + scheduler states; nontrivial = evaluations in which at least one visible candidate had to be left out. part 2: for every weight vector, every candidate and every cell of the N^n grid over the draws, the real Wrs.Add/ARecord is evaluated at the cell's two extreme corners; cells won at the worst corner bound P(served) from below, cells won at the best corner from above; the statement's w_i/sum(w) must lie in the bracket (exact integer comparison); a coarse grid is also served through the real handler and compared with the direct selection. part 3: every interleaving within the preemption bound of 2-3 threads taking 2 draws each from rand.New(&lockedSource{...}) over a deliberately non-atomic probe source (and over the runtime source re-seeded through the locked Seed): multiset of values = first n outputs, no race on the underlying state, no deadlock")
+	r.Assume = []string{
+		"part 2 relies on the key being monotone in the draw (checked at every evaluated corner pair: a cell won at its worst corner must be won at its best corner); deviations of a selection rule smaller than the reported bracket width are not detected",
+		"a uniform 32-bit draw is assumed for the probabilities (each grid cell has probability exactly N^-n); the quality of math/rand's generator is not examined",
+		"candidate sets beyond the size bound, weights outside {0,1,2,3,10,2^32-1}, draws outside the 5-value alphabet (part 1) are outside the claim; row order inside a store is whatever the real compiler produces (all draw sequences are enumerated, so every assignment of draws to candidates is covered for that order)",
+		"part 3: schedules beyond 3 preemptions and scheduling points other than the lockedSource mutex operations and the probe's explicit point are outside the claim",
+	}
+	r.Finish()
+}
+
+func replayArg() string {
+	for i, a := range os.Args {
+		if a == "--replay" && i+1 < len(os.Args) {
+			return os.Args[i+1]
+		}
+	}
+	return ""
 }
